@@ -3,6 +3,15 @@
    (/repo/core/rawdb/freezer_table.go, freezer_batch.go, freezer_meta.go), each closed by
    [exact] of a lemma of Storage/FreezerTableProofs.v or by evaluation of a witness.
 
+   STATUS AFTER THE DEEPENING ROUND: reopen_contiguous is FULL for one table over all guarded histories
+   with crashes inside (C24_reopen_contiguous, via the full table invariant DInv of
+   Storage/FreezerTableData.v, preserved by every operation: Storage/FreezerTableOps.v); the freezer level
+   is C24_freezer_crash_safe (cross-table condition derived from the history; C24_freezer_crash_safe_partial
+   is the older version with that condition as a hypothesis).  readable_is_appended: the
+   surviving bytes are proved identical to the live table's bytes; that the live table's bytes are the
+   encoding of what was appended is not a theorem.  synced_survive: immediate form only.  The older,
+   weaker statements below are kept.
+
    FULL STATEMENTS (DESIGN.md C24) and what is proved of them:
      reopen_contiguous   : forall history, forall crash cut, reopen = Ok /\ the table exposes one
                            contiguous range [tail, head).
@@ -39,7 +48,7 @@
          crash theorems into one statement over freezer histories; both are covered by the freezer-level
          correspondence (kind 9) and its Go oracle.
      zero_tail_detected  : C24_zero_tail_detected, FULL, with the undetectable case as its exact exception. *)
-From GV Require Import Lib.Tactics Storage.FreezerTable Storage.FreezerTableProofs Storage.FreezerTableInv Storage.Freezer Storage.FreezerProofs Storage.FreezerSuccess Storage.FreezerTableData Storage.FreezerCompose.
+From GV Require Import Lib.Tactics Storage.FreezerTable Storage.FreezerTableProofs Storage.FreezerTableInv Storage.Freezer Storage.FreezerProofs Storage.FreezerSuccess Storage.FreezerTableData Storage.FreezerCompose Storage.FreezerTableOps Storage.FreezerHist Storage.FreezerCross.
 Local Open Scope N_scope.
 
 (* checkIndex truncates a zero-filled tail exactly at the first zero entry, unless the last genuine
@@ -150,7 +159,8 @@ Theorem C24_reopen_contiguous_state : forall maxsz t ci cd (cm : bool),
     (forall e, In e (synced_of t) ->
        exists f f', dget (efile e) (t_data t) = Some f /\ dget (efile e) (t_data t') = Some f' /\
                     eoff e <= fsize f' /\
-                    firstn (N.to_nat (eoff e)) (fbytes f') = firstn (N.to_nat (eoff e)) (fbytes f)).
+                    firstn (N.to_nat (eoff e)) (fbytes f') = firstn (N.to_nat (eoff e)) (fbytes f)) /\
+    t_msyn t' = t_mcur t' /\ mvtail (t_mcur t') = t_hidden t' /\ mflush (t_mcur t') = mflush (t_mcur t).
 Proof. exact open_crash_ok. Qed.
 Print Assumptions C24_reopen_contiguous_state.
 
@@ -162,6 +172,44 @@ Theorem C24_freezer_repair_succeeds : forall maxsz ts,
   exists f, fz_repair ts = Ok f.
 Proof. exact fz_repair_ok. Qed.
 Print Assumptions C24_freezer_repair_succeeds.
+
+(* the full table invariant is preserved by every operation (under the history guard) and by every
+   crash + reopen: it holds after every history, crashes inside included *)
+Theorem C24_table_invariant_all_histories : forall maxsz encode t0 hs,
+  maxsz < two32 -> init true = Ok t0 -> hguarded maxsz encode t0 hs ->
+  DInv maxsz (hrun maxsz encode t0 hs).
+Proof. intros. apply dinv_hrun; [assumption|eapply dinv_init; eauto|assumption]. Qed.
+Print Assumptions C24_table_invariant_all_histories.
+
+(* REOPEN_CONTIGUOUS, FULL for one table: for EVERY guarded history of append batches, truncateHead,
+   truncateTail, Sync, the interior points of doSync AND crashes + reopens inside the history, and EVERY
+   final crash state (every cut of every file between durable and current length, every zero fill, either
+   metadata record): newTable succeeds; the table exposes the one range [tail, head) with tail <= head;
+   head = itemOffset + the entries below the flush offset, never above the head before the crash; the
+   surviving entries are exactly those entries, and the data of each of them is byte-for-byte the data
+   the live table held (so every readable item reads what the live table read at that number) *)
+Theorem C24_reopen_contiguous : forall maxsz encode t0 hs ci cd (cm : bool),
+  maxsz < two32 -> init true = Ok t0 -> hguarded maxsz encode t0 hs ->
+  let t := hrun maxsz encode t0 hs in
+  cut_ok t ci cd ->
+  exists t', crash_reopen true t ci cd cm = Ok t' /\ DInv maxsz t' /\
+    t_hidden t' <= t_items t' /\ t_offset t' = t_offset t /\
+    t_items t' = t_offset t + N.of_nat (length (synced_of t)) /\ t_items t' <= t_items t /\
+    rest_of t' = synced_of t /\
+    (forall e, In e (synced_of t) ->
+       exists f f', dget (efile e) (t_data t) = Some f /\ dget (efile e) (t_data t') = Some f' /\
+                    eoff e <= fsize f' /\
+                    firstn (N.to_nat (eoff e)) (fbytes f') = firstn (N.to_nat (eoff e)) (fbytes f)).
+Proof. exact table_crash_safe. Qed.
+Print Assumptions C24_reopen_contiguous.
+
+(* SYNCED_SURVIVE, the immediate form: a crash right after a completed Sync loses no item (whatever the
+   cut).  The general form ("and not truncated since") is not stated over histories. *)
+Theorem C24_synced_survive_partial : forall maxsz encode t t1 ci cd (cm : bool) t',
+  DInv maxsz t -> step maxsz encode t OSync = Ok t1 -> cut_ok t1 ci cd ->
+  crash_reopen true t1 ci cd cm = Ok t' -> t_items t' = t_items t1.
+Proof. exact sync_then_crash_keeps_all. Qed.
+Print Assumptions C24_synced_survive_partial.
 
 (* NEWFREEZER AFTER A CRASH, composed: tables satisfying DInv, ANY crash state of each of them, and the
    cross-table condition that TruncateTail's sync-first order maintains (no table recovers a tail above
@@ -181,6 +229,65 @@ Theorem C24_freezer_reopen_state : forall maxsz (cs : list crashed),
                  s <= fz_head f /\ fz_tail f <= h).
 Proof. exact fz_open_crash_ok. Qed.
 Print Assumptions C24_freezer_reopen_state.
+
+(* THE FREEZER OVER HISTORIES (partial only in its last hypothesis): from a freezer whose tables satisfy the
+   table invariant (the empty freezer does: C24_empty_freezer_ok), after EVERY guarded history of
+   ModifyAncients / TruncateHead / TruncateTail (sync first) / SyncAncient and for EVERY crash state of
+   every table, NewFreezer succeeds, all tables end at exactly [Tail, Ancients), Ancients is the least
+   head recovered by a non-empty table and any range recovered by all tables is kept — PROVIDED the
+   cross-table condition holds in the crash state (no table recovers a tail above the head another table
+   recovers, unless it recovers the empty range at its tail).  That condition is what TruncateTail's
+   sync-first order (commit 4e0311bb15) maintains; it is a hypothesis here, not yet derived from the
+   history; crash + reopen inside a FREEZER history is not covered either (it is for one table). *)
+Theorem C24_freezer_crash_safe_partial : forall maxsz f0 h (cs : list crashed),
+  maxsz < two32 -> Forall (DInv maxsz) (fz_tables f0) -> fz_guarded maxsz f0 h ->
+  map cr_t cs = fz_tables (fz_hrun maxsz f0 h) ->
+  (forall c, In c cs -> cut_ok (cr_t c) (cr_ci c) (cr_cd c) /\ t_head (cr_t c) + 2 < 65536) ->
+  (forall c, In c cs -> dur_head (cr_t c) <> 0 ->
+     (forall c', In c' cs -> dur_head (cr_t c') <> 0 -> rec_tail c <= dur_head (cr_t c')) \/ dur_head (cr_t c) = rec_tail c) ->
+  exists f', fz_open true (map cr_disk cs) = Ok f' /\
+    length (fz_tables f') = length cs /\
+    Forall (fun t' => t_items t' = fz_head f' /\ t_hidden t' = fz_tail f') (fz_tables f') /\
+    fz_tail f' <= fz_head f' /\
+    (forall c, In c cs -> dur_head (cr_t c) <> 0 -> fz_head f' <= dur_head (cr_t c)) /\
+    (forall s hh, cs <> [] -> hh < s -> (forall c, In c cs -> s <= dur_head (cr_t c) /\ rec_tail c <= hh) ->
+                 s <= fz_head f' /\ fz_tail f' <= hh).
+Proof. exact freezer_crash_safe. Qed.
+Print Assumptions C24_freezer_crash_safe_partial.
+
+Theorem C24_empty_freezer_ok : forall maxsz,
+  (exists f0, fz_open true (repeat (f_empty, [], None) 2) = Ok f0 /\ Forall (DInv maxsz) (fz_tables f0)) /\
+  (exists f0, fz_open true (repeat (f_empty, [], None) 3) = Ok f0 /\ Forall (DInv maxsz) (fz_tables f0)).
+Proof. exact empty_freezer_dinv. Qed.
+Print Assumptions C24_empty_freezer_ok.
+
+(* THE FREEZER THEOREM, cross-table condition DERIVED from the history (FULL for histories that end with the
+   crash): from the empty freezer (C24_empty_freezer_inv), after EVERY guarded history of ModifyAncients /
+   TruncateHead / TruncateTail (which flushes every table first) / SyncAncient and for EVERY crash state of
+   every table (every cut of every file, every zero fill, either metadata record, independently per
+   table), NewFreezer succeeds, all tables end at exactly [Tail, Ancients), Ancients is the least head
+   recovered by a non-empty table, and any range [hh, s) recovered by every table is kept.  The freezer
+   invariant behind it: every table satisfies DInv and XInv (both metadata records carry a tail <= the
+   in-memory tail <= the head covered by the flush offset) and all tables agree on items and tail. *)
+Theorem C24_freezer_crash_safe : forall maxsz f0 h (cs : list crashed),
+  maxsz < two32 -> FXInv maxsz f0 -> fz_guarded maxsz f0 h ->
+  map cr_t cs = fz_tables (fz_hrun maxsz f0 h) ->
+  (forall c, In c cs -> cut_ok (cr_t c) (cr_ci c) (cr_cd c) /\ t_head (cr_t c) + 2 < 65536) ->
+  exists f', fz_open true (map cr_disk cs) = Ok f' /\
+    length (fz_tables f') = length cs /\
+    Forall (fun t' => t_items t' = fz_head f' /\ t_hidden t' = fz_tail f') (fz_tables f') /\
+    fz_tail f' <= fz_head f' /\
+    (forall c, In c cs -> dur_head (cr_t c) <> 0 -> fz_head f' <= dur_head (cr_t c)) /\
+    (forall s hh, cs <> [] -> hh < s -> (forall c, In c cs -> s <= dur_head (cr_t c) /\ rec_tail c <= hh) ->
+                 s <= fz_head f' /\ fz_tail f' <= hh).
+Proof. exact freezer_crash_safe_full. Qed.
+Print Assumptions C24_freezer_crash_safe.
+
+Theorem C24_empty_freezer_inv : forall maxsz,
+  (exists f0, fz_open true (repeat (f_empty, [], None) 2) = Ok f0 /\ FXInv maxsz f0) /\
+  (exists f0, fz_open true (repeat (f_empty, [], None) 3) = Ok f0 /\ FXInv maxsz f0).
+Proof. exact empty_freezer_fx. Qed.
+Print Assumptions C24_empty_freezer_inv.
 
 (* "reopen = Ok for every history and cut" is false of the code before the clamp in repair():
    files at their durable lengths + the current (never fsync'ed) metadata record *)
